@@ -33,9 +33,10 @@ class DecoratorHelper:
 		join_args = decorator[args_begin + 1:len(decorator) - 1]
 		args: dict[str, str] = {}
 		for index, arg in enumerate(BlockParser.break_separator(join_args, ',')):
-			if arg.count('=') > 0:
-				label, *remain = arg.split('=')
-				args[label] = '='.join(remain)
+			# XXX ラベルは先頭の識別子のみ。文字列・呼び出し式・比較式に含まれる`=`はラベルの区切りではない
+			matches = re.fullmatch(r'([A-Za-z_]\w*)\s*=(?!=)\s*(.*)', arg, flags=re.DOTALL)
+			if matches:
+				args[matches[1]] = matches[2]
 			else:
 				args[str(index)] = arg
 
